@@ -628,6 +628,10 @@ func parseExcludeFile(openFile openFileFunc) (excludeIPs scan.IPContainer, err e
 			return
 		}
 	}
+	// don't start a scan with a partially read exclude list
+	if err = scanner.Err(); err != nil {
+		return
+	}
 	excludeIPs = ranger
 	return
 }
